@@ -11,6 +11,11 @@
 //	    call, the tokens out of xml.NewTokenDecoder(raw.TokenReader()), a second
 //	    drain, xml.Marshal(&raw) read again with encoding/xml, and the same for
 //	    xml.Marshal(&internal.Prop{Raw: {raw}}) (what stands inside the prop element).
+//	(inter <bytes> (<tok>...) <n> lazy|upfront (a <i>|d ...)) (obs <status> (k <otok>)|eof|panic|(dec <res>) ...)
+//	    n readers of ONE captured value advanced by a schedule, with Decode calls in between.
+//	(seq var|prop|propreuse|resp ((<bytes> (<tok>...)) ...)) (obs (c <status> <raw> <read> <dec> <read2> <mar> <mar-in>) ...)
+//	    documents captured one after the other into ONE variable, a by-value copy kept
+//	    after each capture, every copy observed at the end.
 //	(bad <bytes> (<tok>...)) (obs <status>)
 //	    a document that is not well formed: tokens up to the decoder's error.
 //	(typed d|m <type> <bytes> (<tok>...)) (obs <status> <err via raw> <err direct> <equal>)
@@ -367,13 +372,156 @@ func observeDoc(doc []byte) string {
 	if st != "ok" {
 		return hx.L("obs", st)
 	}
-	view := rawViewSx(&raw)
-	read := readSx(&raw)
-	dec := decSx(&raw)
-	read2 := read2Sx(&raw)
-	mar := marSx(&raw)
-	marIn := marInSx(&raw)
-	return hx.L("obs", "ok", view, read, dec, read2, mar, marIn)
+	return hx.L(append([]string{"obs", "ok"}, observeValue(&raw)...)...)
+}
+
+// observeValue: everything that is observed of a captured value.
+func observeValue(raw *RawXMLValue) []string {
+	view := rawViewSx(raw)
+	read := readSx(raw)
+	dec := decSx(raw)
+	read2 := read2Sx(raw)
+	mar := marSx(raw)
+	marIn := marInSx(raw)
+	return []string{view, read, dec, read2, mar, marIn}
+}
+
+// ---------------------------------------------------------------- several readers of one value
+
+// interLine captures doc into one value and advances n readers of that value
+// by the schedule acts (i >= 0: reader i calls Token(); -1: the value is read
+// to the end through the decoder Decode builds).  Readers are obtained from
+// val.TokenReader() all at the start (upfront) or each at its first call.
+//
+//	(inter <bytes> (<tok>...) <n> lazy|upfront (a <i>|d ...)) (obs <status> (k <otok>)|eof|panic|(dec <res>) ...)
+func interLine(doc []byte, n int, upfront bool, acts []int) string {
+	toks, _, _ := elementTokens(doc)
+	mode := "lazy"
+	if upfront {
+		mode = "upfront"
+	}
+	as := []string{"a"}
+	for _, a := range acts {
+		if a < 0 {
+			as = append(as, "d")
+		} else {
+			as = append(as, hx.I(int64(a)))
+		}
+	}
+	in := hx.L("inter", hx.S(string(doc)), toksSx(toks), hx.I(int64(n)), mode, hx.L(as...))
+	var raw RawXMLValue
+	st := status(func() error { return xml.Unmarshal(doc, &raw) })
+	if st != "ok" {
+		return in + " " + hx.L("obs", st)
+	}
+	readers := make([]xml.TokenReader, n)
+	if upfront {
+		for i := range readers {
+			readers[i] = raw.TokenReader()
+		}
+	}
+	obs := []string{"obs", "ok"}
+	for _, a := range acts {
+		if a < 0 {
+			obs = append(obs, hx.L("dec", decSx(&raw)))
+			continue
+		}
+		if a >= n {
+			continue
+		}
+		res := "panic"
+		func() {
+			defer func() { recover() }()
+			if readers[a] == nil {
+				readers[a] = raw.TokenReader()
+			}
+			tok, err := readers[a].Token()
+			switch {
+			case err == io.EOF && tok == nil:
+				res = "eof"
+			case err == nil:
+				res = hx.L("k", tokSx(tok))
+			default:
+				res = "panic" // an error other than io.EOF: never in the model
+			}
+		}()
+		obs = append(obs, res)
+	}
+	return in + " " + hx.L(obs...)
+}
+
+// ---------------------------------------------------------------- captures into one variable, copies kept
+
+const wrapPrefix = "Wq9"
+
+// seqLine captures the documents one after the other into ONE variable and
+// keeps a by-value copy of the value after each capture; at the end every
+// kept copy is observed like the value of a doc case.
+//
+//	via var:        var raw RawXMLValue; xml.Unmarshal(doc, &raw); kept = append(kept, raw)
+//	via prop:       one internal.Prop; <prop>doc</prop> decoded into it each time (Raw grows); copy of the last element
+//	via propreuse:  the same with p.Raw = p.Raw[:0] before each decoding; copy of p.Raw[0]
+//	via resp:       one internal.Response with resp.PropStats = resp.PropStats[:0] before each decoding of
+//	                <response><href/><propstat><prop>doc</prop><status/></propstat></response>; copy of the
+//	                last element of resp.PropStats[0].Prop.Raw
+//
+//	(seq <via> ((<bytes> (<tok>...)) ...)) (obs (c <status> <raw> <read> <dec> <read2> <mar> <mar-in>) ...)
+func seqLine(via string, docs [][]byte) string {
+	items := make([]string, len(docs))
+	for i, d := range docs {
+		toks, _, _ := elementTokens(d)
+		items[i] = hx.L(hx.S(string(d)), toksSx(toks))
+	}
+	in := hx.L("seq", via, hx.L(items...))
+
+	w := wrapPrefix
+	var kept []RawXMLValue
+	var sts []string
+	var raw RawXMLValue
+	var prop verifhook.Prop
+	var resp verifhook.Response
+	for _, d := range docs {
+		var v RawXMLValue
+		var st string
+		switch via {
+		case "var":
+			st = status(func() error { return xml.Unmarshal(d, &raw) })
+			v = raw
+		case "prop", "propreuse":
+			if via == "propreuse" {
+				prop.Raw = prop.Raw[:0]
+			}
+			wrapped := []byte("<" + w + ":prop xmlns:" + w + `="DAV:">` + string(d) + "</" + w + ":prop>")
+			st = status(func() error { return xml.Unmarshal(wrapped, &prop) })
+			if st == "ok" && len(prop.Raw) > 0 {
+				v = prop.Raw[len(prop.Raw)-1]
+			} else if st == "ok" {
+				st = "err"
+			}
+		default: // resp
+			resp.PropStats = resp.PropStats[:0]
+			wrapped := []byte("<" + w + ":response xmlns:" + w + `="DAV:"><` + w + ":href>/x</" + w + ":href><" + w + ":propstat><" + w + ":prop>" +
+				string(d) + "</" + w + ":prop><" + w + ":status>HTTP/1.1 200 OK</" + w + ":status></" + w + ":propstat></" + w + ":response>")
+			st = status(func() error { return xml.Unmarshal(wrapped, &resp) })
+			if st == "ok" && len(resp.PropStats) > 0 && len(resp.PropStats[0].Prop.Raw) > 0 {
+				l := resp.PropStats[0].Prop.Raw
+				v = l[len(l)-1]
+			} else if st == "ok" {
+				st = "err"
+			}
+		}
+		kept = append(kept, v) // a copy by value
+		sts = append(sts, st)
+	}
+	obs := []string{"obs"}
+	for i := range kept {
+		if sts[i] != "ok" {
+			obs = append(obs, hx.L("c", sts[i]))
+			continue
+		}
+		obs = append(obs, hx.L(append([]string{"c", "ok"}, observeValue(&kept[i])...)...))
+	}
+	return in + " " + hx.L(obs...)
 }
 
 func docLine(doc []byte, feats []string) string {
@@ -766,7 +914,8 @@ func propLine(c *propCase) string {
 }
 
 // propmLine: Response.DecodeProp(v1, ..., vk) with several values.
-//   (propm ((tag ..)|(none ..) ...) rc ((code raw...) ...)) (obs (sels id...)|notfound|other|panic)
+//
+//	(propm ((tag ..)|(none ..) ...) rc ((code raw...) ...)) (obs (sels id...)|notfound|other|panic)
 func propmSx(tags []tagSpec, c *propCase) string {
 	var ts []string
 	for _, t := range tags {
@@ -869,6 +1018,22 @@ func main() {
 				sink.Put(rawLine(parseRspec(a[0])))
 			case "prop":
 				sink.Put(propLine(parsePropCase(in)))
+			case "inter":
+				var acts []int
+				for _, x := range a[4].Args() {
+					if x.Atom == "d" {
+						acts = append(acts, -1)
+					} else {
+						acts = append(acts, int(x.Int()))
+					}
+				}
+				sink.Put(interLine([]byte(a[0].Str()), int(a[2].Int()), a[3].Atom == "upfront", acts))
+			case "seq":
+				var docs [][]byte
+				for _, d := range a[1].List {
+					docs = append(docs, []byte(d.List[0].Str()))
+				}
+				sink.Put(seqLine(a[0].Atom, docs))
 			case "propm":
 				var tags []tagSpec
 				for _, t := range a[0].List {
